@@ -114,6 +114,34 @@ theorem hold_for_duration_activates (k : KState) (c : Coord) (dur : Nat) (cur : 
       .ok ({ k with layout := l', vkeysPendingRelease := [(c, dur)] }, cur) := by
   simp [customPress, customPress.go, h, he]
 
+/-- **hold_for_duration_after_release_counterexample** (known finding, KNOWN_FINDINGS.jsonl:
+`rearmed-after-release`; reproduced on the real code, corpus/C18.txt).  The re-arm branch looks only
+at the countdown table, not at the key: when the key has been released by another action since the
+first activation (release-vkey, release-key, a TCP release) while its countdown is still running - no
+key state, nothing queued - a new hold-for-duration activation sends NO press: the layout is left
+exactly as it was, so the key is not held at all although "hold-for-duration keeps the key pressed
+until the stated time has passed since its most recent activation".  (General in `k`; the concrete
+witness below it is the state after `(hold-for-duration 50 v)`, then `release-vkey v` 10 ms later.) -/
+theorem hold_for_duration_after_release_counterexample (k : KState) (c : Coord) (d dur : Nat) (cur : List KeyCode)
+    (h : k.vkeysPendingRelease = [(c, d)]) (hs : k.layout.states = []) (hq : k.layout.queue = []) :
+    ∃ k', customPress k [.fakeKeyHold c dur] cur = .ok (k', cur) ∧
+      k'.layout.states = [] ∧ k'.layout.queue = [] ∧ k'.vkeysPendingRelease = [(c, dur)] :=
+  ⟨_, hold_for_duration_rearms k c d dur cur h, hs, hq, rfl⟩
+
+/-- the witness: virtual key (1,0) = `lmet`, released explicitly 10 ticks into its 50-tick hold (the
+table still says 40 to go, no key state, empty queue); the next activation changes nothing but the table -/
+example :
+    let k : KState :=
+      { layout := { cfg := { layers := [[((0, 30), .custom 0), ((1, 0), .keyCode 125)]], srcKeys := [(30, .keyCode 30)] } },
+        customs := [[.fakeKeyHold (1, 0) 50]], keyOutputs := [], mods := default,
+        vkeysPendingRelease := [((1, 0), 40)] }
+    k.layout.states = [] ∧ k.layout.queue = [] ∧
+    (match customPress k [.fakeKeyHold (1, 0) 50] [] with
+      | .ok (k', _) => k'.layout.states = [] ∧ k'.layout.queue = [] ∧ k'.vkeysPendingRelease = [((1, 0), 50)]
+      | .error _ => False) := by
+  refine ⟨rfl, rfl, ?_⟩
+  simp [customPress, customPress.go]
+
 /-! ### on-idle -/
 
 /-- **on_idle_not_before** (full): an on-idle action does not fire while the accumulated idle time
